@@ -1,4 +1,6 @@
 import ClvmModel.Proto.PyGlue
+import ClvmModel.Proto.PySerDe
+import ClvmModel.Proto.PyCastsCurry
 namespace Clvm.Proto
 
 /-- request kinds of the Python-wheel correspondence (C26–C28) that the model answers;
@@ -6,6 +8,12 @@ the others (`PYRUN`, `PYSERDE`, `PYCRUN`) are answered by the two implementation
 def handlePy (kind : String) (args : List String) : Option String :=
   match kind with
   | "PYGLUE" => handlePyGlue args
+  | "PYSER" => handlePySer args
+  | "PYPFX" => handlePyPfx args
+  | "PYDE" => handlePyDe args
+  | "PYINT" => handlePyInt args
+  | "PYCURRY" => handlePyCurry args
+  | "PYUNCURRY" => handlePyUncurry args
   | _ => none
 
 end Clvm.Proto
